@@ -1,5 +1,5 @@
-"""C01 — decoders never hand back a wrong source symbol (Reed-Solomon part only; LDPC-Staircase not reached)."""
-from checks import c02, c10
+"""C01 — decoders never hand back a wrong source symbol (Reed-Solomon codecs: contract composition; LDPC-Staircase: BOUNDED session contract)."""
+from checks import c02, c10, lbc
 
 INFO = {
     "level": "model_checking",
@@ -7,7 +7,7 @@ INFO = {
                    "supplied and never written: C10 frame clauses, re-run here) or a decoded one (what the decode core produced, stored unchanged in the "
                    "callback's or the library's buffer: callback.decoded_value_stored), and the decode core returns the encoder's sources for every "
                    "k-subset of small (k,n) and all data (C02 decode-core contract, re-run here). Completion implies all k sources available (inv.*).",
-    "assumptions": ["LDPC-Staircase (IT peeling, ML Gaussian elimination) is NOT decided by this technique (DESIGN.md section 6)",
+    "assumptions": ["LDPC-Staircase (IT peeling, ML Gaussian elimination): BOUNDED session contract on small codes (k + (n-k) <= 9): every received subset then finish, and enumerated arrival sequences with every prefix; clause sound.available_source_is_the_encoded_one for all source data",
                     "decode-core contract BOUNDED in (k,n); beyond it one trusted theorem (Vandermonde), see C02",
                     "kernels (C13) and tables (C14) carry the byte-level arithmetic"],
     "trusted": ["Vandermonde theorem for (k,n) beyond the enumerated pairs"],
@@ -15,4 +15,10 @@ INFO = {
 
 
 def jobs(tier, seed):
-    return c02.decode_jobs(tier, group="rs_decode_core") + c10.api_jobs(tier, fns=(1, 2, 3, 4), group_prefix="rs_api")
+    js = c02.decode_jobs(tier, group="rs_decode_core") + c10.api_jobs(tier, fns=(1, 2, 3, 4), group_prefix="rs_api")
+    ld = lbc.c03_jobs(tier, seed, prop="C01", prefix="c01ml", group_prefix="lbc_sound_finish") + lbc.c04_jobs(tier, seed, prop="C01", prefix="c01it", group_prefix="lbc_sound_stream")
+    if tier == "quick":   # a slice here; the whole families run under C03 / C04
+        ld = [j for i, j in enumerate(ld) if ".k3r3." in j.name or i % 4 == 0]
+    else:
+        ld = [j for i, j in enumerate(ld) if i % 3 == 0]
+    return js + ld
